@@ -213,7 +213,7 @@ def smt_check(pc, goal, timeout_ms=None, want_model=None, use_cvc5=True, defs=No
     # stage 2: the original query by relevance layers.  unsat of a weaker/abstracted query is unsat of the
     # original (sound); sat answers are only ever taken from the original, complete query below.
     from .smt import deselect
-    deadline = t0 + float(deadline_s or os.environ.get('PYVC_DEADLINE_S', '30'))
+    deadline = t0 + float(deadline_s or os.environ.get('PYVC_DEADLINE_S', '60'))
 
     def left():
         return deadline - time.time()
@@ -227,7 +227,8 @@ def smt_check(pc, goal, timeout_ms=None, want_model=None, use_cvc5=True, defs=No
         tried_cvc5 = False
         for hops in ([None] + layers):
             s = z3.Solver()
-            s.set('timeout', min(timeout_ms or Z3_TIMEOUT_MS, 3000))
+            # (the whole focused query gets the larger share: on a slower or busier machine a query that needs 3 s here needs 8 s there)
+            s.set('timeout', min(timeout_ms or Z3_TIMEOUT_MS, 10000 if hops is None else 3000))
             for c in (fflat if hops is None else hops + [fflat[len(fq)]]):
                 s.add(c)
             if s.check() == z3.unsat:
@@ -237,7 +238,7 @@ def smt_check(pc, goal, timeout_ms=None, want_model=None, use_cvc5=True, defs=No
                 # assertions (most runs: unsat in a fraction of a second; some: unknown): a few cheap re-tries first
                 for attempt, seed in enumerate((3, 17, 101)):
                     s3 = z3.Solver()
-                    s3.set('timeout', 2500)
+                    s3.set('timeout', 6000)
                     s3.set('random_seed', seed)
                     k = (attempt + 1) * 3 % max(1, len(fflat))
                     for c in fflat[k:] + fflat[:k]:
@@ -413,7 +414,7 @@ def solve_serialized(arg):
     # a watchdog thread interrupts the solver once the obligation's deadline is well past and, if that does not help either, ends this
     # worker process - the parent reports the queries it had as undecided
     import threading
-    limit = float(deadline_s or os.environ.get('PYVC_DEADLINE_S', '30'))
+    limit = float(deadline_s or os.environ.get('PYVC_DEADLINE_S', '60'))
     t_begin = time.time()
     done = threading.Event()
 
